@@ -603,6 +603,10 @@ func forkCheck(t *testing.T, run *ev.Run, h *vchain.History, cfg func(*config.Bl
 			t.Fatalf("fresh node: %v", err)
 		}
 	}
+	if d := compareTransferHistories(run, a.BC, b.BC); d != "" {
+		run.Violation("reset:token-transfer-history-differs-from-fresh-node", id, d, map[string]any{"target": target, "kind": "short"})
+		return
+	}
 	// the alternative continuation is produced on the fresh node itself
 	e := neotest.NewExecutor(t, b.BC, h.P.Val, h.P.Com)
 	opts := h.P.ObsOpts()
@@ -651,8 +655,13 @@ func pageRun(t *testing.T, run *ev.Run, idx, nblocks int) {
 		sr, _ := p.BC.GetStateRoot(uint32(i))
 		roots[i] = sr.Root.StringLE()
 	}
+	lateFrom := nblocks - 12
 	for len(p.Raw) < nblocks && p.Rejected == nil {
 		var txs []*transaction.Transaction
+		if len(p.Raw) == lateFrom {
+			// fresh accounts sorting right before the busy ones get their first tokens late
+			txs = append(txs, lateNeighbours(p)...)
+		}
 		if r.Intn(40) == 0 {
 			u := p.Users[r.Intn(len(p.Users))]
 			txs = append(txs, p.Call("gas-transfer", []neotest.Signer{u.S}, p.GasH, "transfer", u.Hash(), p.Users[0].Hash(), int64(1+r.Intn(9)), nil))
@@ -771,15 +780,25 @@ func pageRun(t *testing.T, run *ev.Run, idx, nblocks int) {
 		}})
 	}
 	runJobs(run, jobs, func(j job) any { return map[string]any{"run": idx, "kind": "page", "prefix": j.id} })
+	longReset(t, run, idx, p, proto, lateFrom+1)
 }
 
 func TestCheck(t *testing.T) {
+	if sp := os.Getenv("C02_KILL_CHILD"); sp != "" {
+		killChild(sp)
+		return
+	}
 	run := ev.Start("C02", "a case is one crash point: the database content after the first k atomic batches (PutChangeSet / SeekGC commits) of a recorded node run, materialised into a fresh store (memory; BoltDB/LevelDB for a seeded 20%), reopened with core.NewBlockchain, observed, and fed the remaining blocks; runs cover ordinary persistence with flushes between header and block, GC, Blockchain.Reset (every batch of the reset, resumed on restart, final raw database compared with the uninterrupted reset, plus an alternative continuation on the reset node and a fresh node) and header-hash page boundaries; every prefix of every recorded log is enumerated (page run: those around the boundaries); distinct by (run, prefix length, backend)")
 	defer run.Finish()
 	run.Assume("crash points are batch boundaries: the backend's own atomicity is trusted, as the property states")
 	run.Assume("batch boundaries are observed, not predicted: each run enumerates the prefixes of the log it recorded")
 	run.Assume("the state-sync jump is exercised by C20's harness; here only persistence, GC, reset and page boundaries")
 	part := os.Getenv("VERIF_PART")
+	if part == "kill" {
+		run.Assume("kill part: SIGKILL of the writing process stands for the node dying; what the operating system had accepted survives (no power loss)")
+		killPart(t, run)
+		return
+	}
 	do := func(p string) bool { return part == "" || part == "all" || part == p }
 	nb := ev.Pick(40, 100)
 	if do("persist") {
